@@ -7,6 +7,7 @@ import (
 	"fmt"
 	"os"
 	"os/exec"
+	"path/filepath"
 	"regexp"
 	"runtime"
 	"strings"
@@ -103,11 +104,28 @@ func freshProcesses(c *child.Ctx, n int) {
 				args = append(args, a)
 			}
 			args = append(args, "-out", os.DevNull, "-cur", os.DevNull)
-			cmd := exec.Command(os.Args[0], args...)
+			bin := os.Args[0]
+			raced := false
+			if rb := filepath.Join(c.BinDir, "vmon.race"); i%2 == 1 && c.BinDir != "" {
+				// every other fresh process is the same monitor built with the race
+				// detector: a half-built table is then seen whenever the first calls
+				// overlap at all, not only when a reader lands inside the gap
+				if _, e := os.Stat(rb); e == nil {
+					bin, raced = rb, true
+				}
+			}
+			cmd := exec.Command(bin, args...)
 			cmd.Env = append(os.Environ(), "VMON_PRELUDE_ONLY=1", fmt.Sprintf("VMON_PRELUDE_INDEX=%d", i))
 			out, err := cmd.CombinedOutput()
 			mu.Lock()
 			defer mu.Unlock()
+			if raced {
+				c.Count("fresh_processes_under_the_race_detector", 1)
+			}
+			if k := strings.Index(string(out), "WARNING: DATA RACE"); k >= 0 {
+				c.Violate("data-race", "the race detector reported a data race among the first calls of a fresh process, made side by side:\n"+clipText(string(out)[k:]), nil)
+				return
+			}
 			if !strings.Contains(string(out), "PRELUDE-DONE") {
 				// it died: a crash among the first calls of a process
 				c.Violate("crash", fmt.Sprintf("a fresh process whose first calls into the code under test were made side by side ended abnormally (%v):\n%s", err, clipText(string(out))), nil)
@@ -189,6 +207,18 @@ func hangExit(what, verdict, dump string) {
 // make progress.  If the generous wall-clock maximum passes without that, the run
 // is reported as busy, which the driver treats as inconclusive.
 func waitOrHang(done <-chan struct{}, max time.Duration, what string) {
+	waitOrHangX(done, max, what, false)
+}
+
+// waitOrHangGone is waitOrHang for waits that only the code under test can end
+// (it has to close a channel or return): there, "no goroutine of the code under test
+// is left at all" counts like "all of them are blocked" - the awaited event can
+// never happen once the code that had to produce it has gone.
+func waitOrHangGone(done <-chan struct{}, max time.Duration, what string) {
+	waitOrHangX(done, max, what, true)
+}
+
+func waitOrHangX(done <-chan struct{}, max time.Duration, what string, goneCounts bool) {
 	deadline := time.Now().Add(max)
 	streak := 0
 	last := int64(-1)
@@ -198,7 +228,11 @@ func waitOrHang(done <-chan struct{}, max time.Duration, what string) {
 			return
 		case <-time.After(time.Second):
 		}
-		blocked, _, dump := repoAllBlocked()
+		blocked, found, dump := repoAllBlocked()
+		if goneCounts && found == 0 {
+			blocked = true
+			dump = "no goroutine of the code under test is left; the awaited event can never happen\n" + dump
+		}
 		p := progress.Load()
 		if blocked && p == last {
 			streak++
